@@ -15,6 +15,9 @@
 #ifndef PH
 # define PH 0
 #endif
+#ifndef SPLIT
+# define SPLIT 0
+#endif
 #include "verif.h"
 #include "ideal_hash.h"
 #include "ideal_ed25519.h"
@@ -108,6 +111,45 @@ VERIF_MAIN
         CHECK((r == 0) == want, "verification accepts <=> canonical S, canonical A, A and R decode and are not of small order, and the cofactored equation holds for h = H(R||A||M) mod L");
         CHECK(r == 0 || r == -1, "verification returns 0 or -1");
         if (want) { WITNESS_AT("accepting path"); } else { WITNESS_AT("rejecting path"); }
+    }
+#elif PART == 4
+    {
+        /* multi-part (Ed25519ph) API and key wrappers: init / update(a) / update(rest) / final_create ==
+         * pre-hashed signing of SHA-512(m); final_verify <=> pre-hashed verification of SHA-512(m); the generic
+         * crypto_sign_* names are the Ed25519 functions; sk_to_seed / sk_to_pk are the halves of the secret key */
+        crypto_sign_state st;
+        uint8_t            pk[32], sk[64], ph[64], sig[64], sig2[64], seed2[32], pk2[32];
+        unsigned long long l1 = 0, l2 = 0;
+        int                r, v;
+        reset_logs();
+        CHECK(crypto_sign_seed_keypair(pk, sk, in.seed) == 0, "keypair");
+        CHECK(crypto_sign_ed25519_sk_to_seed(seed2, sk) == 0 && v_eq(seed2, in.seed, 32), "sk_to_seed = first half");
+        CHECK(crypto_sign_ed25519_sk_to_pk(pk2, sk) == 0 && v_eq(pk2, pk, 32), "sk_to_pk = second half = public key");
+        reset_logs();
+        CHECK(crypto_sign_init(&st) == 0, "init");
+        CHECK(crypto_sign_update(&st, in.m, SPLIT) == 0, "update");
+        CHECK(crypto_sign_update(&st, in.m + SPLIT, MLEN - SPLIT) == 0, "update");
+        CHECK(crypto_sign_final_create(&st, sig, &l1, sk) == 0 && l1 == 64, "final_create returns 0, siglen 64");
+        ideal_hash(IDEAL_SHA512, ph, 64, in.m, MLEN, NULL, 0, NULL, NULL);
+        reset_logs();
+        CHECK(_crypto_sign_ed25519_detached(sig2, &l2, ph, 64, sk, 1) == 0 && v_eq(sig, sig2, 64), "multi-part signature = Ed25519ph signature of SHA-512(m)");
+        /* verification of an arbitrary presented signature */
+        reset_logs();
+        crypto_sign_init(&st);
+        crypto_sign_update(&st, in.m, MLEN);
+        r = crypto_sign_final_verify(&st, in.sig, in.pk);
+        reset_logs();
+        v = _crypto_sign_ed25519_verify_detached(in.sig, ph, 64, in.pk, 1);
+        CHECK(r == v, "final_verify <=> pre-hashed verification of SHA-512(m)");
+        /* generic names */
+        reset_logs();
+        CHECK(crypto_sign_detached(sig2, &l2, in.m, MLEN, sk) == 0, "crypto_sign_detached");
+        reset_logs();
+        CHECK(crypto_sign_ed25519_detached(sig, &l1, in.m, MLEN, sk) == 0 && v_eq(sig, sig2, 64) && l1 == l2, "crypto_sign_detached = crypto_sign_ed25519_detached");
+        reset_logs();
+        r = crypto_sign_verify_detached(in.sig, in.m, MLEN, in.pk);
+        reset_logs();
+        CHECK(r == crypto_sign_ed25519_verify_detached(in.sig, in.m, MLEN, in.pk), "crypto_sign_verify_detached = crypto_sign_ed25519_verify_detached");
     }
 #else
     {
